@@ -21,5 +21,5 @@ for p in props/C*.json; do
   set -- $h
   (cd harness && go build -tags "$2" -o ../.build/$1 ./cmd/$1)
 done
-if [ -d translator ]; then (cd translator && go build -o ../.build/translator .); fi
+for d in translator/c*/; do [ -d "$d" ] && (cd translator && go build -o ../.build/translator-$(basename $d) ./$(basename $d)); done
 echo setup ok
